@@ -94,6 +94,18 @@ Definition enforce (methods : list mdesc) (settings : list setting) : outcome :=
   | Some errs => Rejected errs
   end.
 
+(* Selective GAPIC generation (publishing.library_settings[version = proto package].python_settings.common.
+   selective_gapic_generation): the validation runs on the API object the templates see, i.e. AFTER API.build has
+   applied the allow-list.  With a non-empty allow-list and generate_omitted_as_internal = false the omitted methods
+   are pruned, so API.all_methods holds the allow-listed methods only and a settings entry naming an omitted (but
+   existing) method is reported as "Method was not found."; with generate_omitted_as_internal = true, or an empty
+   allow-list, every method of the proto stays in the table. *)
+Definition visible_methods (allow : list string) (internal : bool) (methods : list mdesc) : list mdesc :=
+  match allow with
+  | [] => methods
+  | _ :: _ => if internal then methods else filter (fun m => mem_str (m_selector m) allow) methods
+  end.
+
 (* ---- the property's own sentence about validation ----
    "generation fails unless the method exists, is unary and the field is a top-level, non-required string
     annotated with format UUID4, and duplicate selectors are rejected" *)
